@@ -292,9 +292,9 @@ def ctxNext (cx : XCtx) : Except YErr XCtx :=
         if i1.isEmpty then .error .invalid else
         match XmlText.parse 60 i1 with
         | .error _ => .error .invalid
-        | .ok (v, ws, rest) => .ok { cx with inp := rest, status := .elemContent, value := v, wsOnly := ws, pfx := none, name := [] }
+        | .ok (v, ws, rest) => .ok { cx with inp := rest, status := .elemContent, value := v, wsOnly := ws }
       else
-        .ok { cx with inp := i, status := .elemContent, value := [], wsOnly := true, pfx := none, name := [] }
+        .ok { cx with inp := i, status := .elemContent, value := [], wsOnly := true }
     | .ok (some (p, n), i) => .ok { cx with inp := i, status := .attribute, pfx := p, name := n }
   | .attribute =>
     match nextAttrContent cx.inp with
